@@ -1,8 +1,90 @@
 (* C19: property theorems (statements in full; proofs in Proofs*.v). *)
 From Coq Require Import List NArith ZArith Bool.
-From C19 Require Import Gen Model Spec ProofsPtr ProofsPatch.
+From C19 Require Import Gen Model Spec ProofsPtr ProofsPatch ProofsParse RTNum RTStr RTDefs RTFinal.
 Import ListNotations.
 Local Open Scope N_scope.
+
+(* Parsing ANY byte list terminates without crashing: JsonParser::Parse (model parse_text, run with
+   the recursion budget parse_fuel = 2*length+2 and the nesting limit Gen.MAX_DEPTH) returns an
+   error or a value; it never exhausts the budget (PFuel) and never enters a ParseArray/ParseObject
+   frame with more than MAX_DEPTH containers open (PDeep, the stack-depth hazard). *)
+Theorem c19_total :
+  forall text : list N,
+    ((exists e, parse_text text = PErr e) \/ (exists v, parse_text text = POk v [])) /\
+    parse_text text <> PFuel /\ parse_text text <> PDeep.
+Proof. intro text. split; [exact (parse_text_total text) | exact (parse_text_no_hazard text)]. Qed.
+Print Assumptions c19_total.
+
+(* The budget/depth invariant behind it, for the three mutually recursive lexer functions at any
+   nesting level d <= MAX_DEPTH: no hazard, and success consumes input. *)
+Theorem c19_total_inner :
+  forall (fuel : nat) (d : N) (l : list N) (acc : list jv) (accm : list (list N * jv)),
+    d <= MAX_DEPTH -> (2 * length l + 2 <= fuel)%nat ->
+    good (parse_value fuel d l) (length l) /\
+    good (parse_elems fuel d l acc) (length l) /\
+    good (parse_members fuel d l accm) (length l).
+Proof.
+  intros fuel d l acc accm Hd Hf. destruct (parse_total_aux fuel) as [Hv [He Hm]].
+  repeat split; try apply Hv; try apply He; try apply Hm; auto; Lia.lia.
+Qed.
+Print Assumptions c19_total_inner.
+
+(* Write-then-parse is the identity.  For EVERY value tree v accepted by the guard RTDefs.wfb
+   (printable-ASCII strings and keys (32..126); JUInt < 2^32, JInt in [-2^31, 2^31), JUInt64 < 2^64,
+   JInt64 in [-2^63, 2^63); booleans, null; arrays; objects whose keys are strictly increasing in
+   std::string order (unique, sorted, as std::map keeps them); no doubles; nesting depth <= MAX_DEPTH),
+   written by JsonWriter with every JsonArray's IsComplexType() flag in its canonical state
+   (flag = "has an array/object element", Model.cx_parsed; the other states are the known finding
+   C19-array-complex-flag, see c19_roundtrip_flag_refuted):
+     - JsonParser::Parse of the text succeeds and gives RTDefs.canon v, which is v with every integer
+       leaf re-classified by its value (the same tree otherwise),
+     - that tree is equal to v under JsonValue::operator== (numeric leaves compared by value),
+     - and its own serialisation is the same text. *)
+Theorem c19_roundtrip :
+  forall v : jv,
+    wfb (N.to_nat MAX_DEPTH) v = true ->
+    parse_text (write cx_parsed 0 v) = POk (canon v) [] /\
+    jv_eqb v (canon v) = true /\
+    write cx_parsed 0 (canon v) = write cx_parsed 0 v.
+Proof. exact roundtrip. Qed.
+Print Assumptions c19_roundtrip.
+
+(* The same inside any context: at any nesting level d and indentation, followed by anything the
+   writer can put after a value, with any sufficient recursion budget. *)
+Theorem c19_roundtrip_inner :
+  forall (v : jv) (k : nat) (d : N) (ind : nat) (rest : list N) (fuel : nat),
+    wfb k v = true -> N.of_nat k + d <= MAX_DEPTH -> follow rest ->
+    (2 * length (write cx_parsed ind v ++ rest) + 1 <= fuel)%nat ->
+    parse_value fuel d (write cx_parsed ind v ++ rest) = POk (canon v) rest.
+Proof. intros v k d ind rest fuel H1 H2 H3 H4. exact (rt_all v k d ind rest fuel H1 H2 H3 H4). Qed.
+Print Assumptions c19_roundtrip_inner.
+
+(* With a non-canonical IsComplexType() flag (here: an array appended through Append(JsonValue* ),
+   Model.cx_api) the last clause fails: known finding C19-array-complex-flag. *)
+Theorem c19_roundtrip_flag_refuted :
+  exists v v', wfb (N.to_nat MAX_DEPTH) v = true /\
+               parse_text (write cx_api 0 v) = POk v' [] /\ jv_eqb v v' = true /\
+               write cx_parsed 0 v' <> write cx_api 0 v.
+Proof.
+  exists (JArr [JArr [JUInt 1]]), (JArr [JArr [JUInt 1]]).
+  split; [vm_compute; reflexivity|]. split; [vm_compute; reflexivity|].
+  split; [vm_compute; reflexivity|]. vm_compute. discriminate.
+Qed.
+Print Assumptions c19_roundtrip_flag_refuted.
+
+(* The guard is satisfiable by trees that exercise every clause: all four integer classes at their
+   boundaries, strings with every escaped character, nested containers, sorted keys with '/' and '~'. *)
+Example c19_roundtrip_guard_sat :
+  let v := JObj [([47; 126], JArr [JUInt 4294967295; JInt (-2147483648); JUInt64 18446744073709551615;
+                                  JInt64 (-9223372036854775808); JInt 7; JInt64 5000000000]);
+                 ([97], JStr [34; 92; 47; 32; 126]);
+                 ([97; 98], JArr [JObj []; JArr []; JBool true; JNull])] in
+  wfb (N.to_nat MAX_DEPTH) v = true /\
+  canon v = JObj [([47; 126], JArr [JUInt 4294967295; JInt (-2147483648); JUInt64 18446744073709551615;
+                                    JInt64 (-9223372036854775808); JUInt 7; JUInt64 5000000000]);
+                  ([97], JStr [34; 92; 47; 32; 126]);
+                  ([97; 98], JArr [JObj []; JArr []; JBool true; JNull])].
+Proof. vm_compute. split; reflexivity. Qed.
 
 (* JSON Pointers round-trip through their string form, for EVERY token sequence (tokens are
    arbitrary byte strings, including '~', '/', "~0", "~1", empty tokens). *)
